@@ -132,7 +132,7 @@ AlgTryFrom(list) == IF Len(list) = 0 THEN "ok" ELSE AlgAdjRange(list[1], Tail(li
 HA == 5
 TimeClasses == {"before", "equal", "after", "near_future", "far_future"}
 TimeOf(tc) == CASE tc = "before" -> -10 [] tc = "equal" -> 0 [] tc = "after" -> 10
-                [] tc = "near_future" -> Now + Drift - 3 [] tc = "far_future" -> Now + Drift + 3
+                [] tc = "near_future" -> Now + Drift - 3 [] tc = "far_future" -> Now + Drift + 5
 
 Monotone(pw, m) == \A i \in 1..(m - 1) : pw[i] <= pw[i + 1]
 \* ascending sequence of the members of a set of keys
